@@ -7,6 +7,7 @@ import (
 	"encoding/json"
 	"fmt"
 	"math"
+	"strings"
 	"testing"
 
 	"github.com/paulmach/osm"
@@ -206,6 +207,28 @@ func roundTrip(c ValueCase, codec int) (string, *harness.Failure) {
 	if d := cmp.OSMDiff(&back, c.Doc.Items); d != "" {
 		return "", &harness.Failure{Sig: "C05/roundtrip", Msg: fmt.Sprintf("codec %d: %s\n%s", codec, d, data)}
 	}
+	// the bytes handed out by the marshal methods belong to the caller: later
+	// marshal calls must not change them
+	direct, err := v.MarshalJSON()
+	if err != nil {
+		return "", &harness.Failure{Sig: "C05/marshal-error", Msg: fmt.Sprintf("OSM.MarshalJSON (codec %d): %v", codec, err)}
+	}
+	keep := string(direct)
+	for _, o := range v.Objects() {
+		json.Marshal(o)
+		switch x := o.(type) {
+		case *osm.Node:
+			x.Tags.MarshalJSON()
+		case *osm.Way:
+			x.Nodes.MarshalJSON()
+		case *osm.Relation:
+			x.Members.MarshalJSON()
+		}
+	}
+	(&osm.OSM{Version: "0.6", Generator: strings.Repeat("g", len(direct))}).MarshalJSON()
+	if string(direct) != keep {
+		return "", &harness.Failure{Sig: "C05/marshal-result-modified", Msg: fmt.Sprintf("codec %d: the result of OSM.MarshalJSON changed while other values were marshalled:\n was %s\n now %s", codec, keep, direct)}
+	}
 	if counter != nil {
 		m, u := counter.get()
 		if m == 0 || u == 0 {
@@ -248,7 +271,7 @@ func checkValue(c ValueCase) error {
 func TestValueRoundTrip(t *testing.T) {
 	harness.Run(t, harness.Spec[ValueCase]{
 		Name: "value-roundtrip", N: 4000,
-		Rule: "osm.OSM values over every element kind (nodes, ways with annotated way nodes/updates/bounds, relations incl. zero members and nested member nodes, changesets with discussions, notes, users; a third with a top-level Bounds), unique tag keys, under three codec configurations (standard library; counting pass-through codec; an Encoder-without-HTML-escaping / Decoder-with-UseNumber codec); oracle = output parsed generically has the osmjson shape (elements array, every element typed, tags object, way nodes integer array, members array never null), Unmarshal(Marshal(v)) equals the model up to tag order and way-node/member-node annotations, top-level fields preserved, custom codec actually consulted; non-trivial = >= 2 element kinds, or a relation without members, or a custom codec",
+		Rule: "osm.OSM values over every element kind (nodes, ways with annotated way nodes/updates/bounds, relations incl. zero members and nested member nodes, changesets with discussions, notes, users; a third with a top-level Bounds), unique tag keys, under three codec configurations (standard library; counting pass-through codec; an Encoder-without-HTML-escaping / Decoder-with-UseNumber codec); oracle = output parsed generically has the osmjson shape (elements array, every element typed, tags object, way nodes integer array, members array never null), Unmarshal(Marshal(v)) equals the model up to tag order and way-node/member-node annotations, top-level fields preserved, custom codec actually consulted, the bytes returned by a direct OSM.MarshalJSON call are unchanged after every element, tag list, way-node list, member list and a second document have been marshalled; non-trivial = >= 2 element kinds, or a relation without members, or a custom codec",
 		Gen: func(t *rapid.T) ValueCase {
 			o := osmdoc.GenOpt{UniqueTagKeys: true}
 			d := osmdoc.GenDoc(t, o, "nwrcNu")
